@@ -145,7 +145,7 @@ def shard(ctx, shard_no, nshards, n_random, stride):
 
 def run(ctx):
     if ctx.tier == 'quick':
-        core.run_sharded(ctx, __name__, 'shard', 1, (1500, 20))
+        core.run_sharded(ctx, __name__, 'shard', 4, (450, 20))
     else:
         core.run_sharded(ctx, __name__, 'shard', getattr(ctx, 'shards_override', None) or 16, (12000, 1))
         ctx.exhaustive['small-grammar-boolean-part'] = True
